@@ -58,9 +58,10 @@ async fn run_async(case: &Case, fx: &Fixture) -> CaseResult {
     if !table_function_scans(&plan, &fx.tables).is_empty() {
         return CaseResult::discard("plan scans a table function (Substrait names tables; the consuming session has no such table)");
     }
-    let original = match exec_logical(&a.ctx, &plan).await {
-        Ok(x) => x,
-        Err(e) => return CaseResult::discard(format!("original plan fails to run: {:?}", err_class(&e))),
+    let original = match no_panic(exec_logical(&a.ctx, &plan)).await {
+        None => return CaseResult::discard("original plan panics while planning / running (outside this property)"),
+        Some(Ok(x)) => x,
+        Some(Err(e)) => return CaseResult::discard(format!("original plan fails to run: {:?}", err_class(&e))),
     };
     let kinds = logical_kinds(&plan);
     let mut labels: Vec<String> = kinds.iter().map(|k| format!("node:{k}")).collect();
